@@ -91,6 +91,12 @@ def run(tier):
     cnt_t = mk_cat((('in', 'frame', 35), ('in', 'frame', 34)))
     E.tracked_preds = {'BC': [(('in', 'frame', 18 + i), C(0xFF)) for i in range(6)]}
     I, outs = run_entry(prog, AUTOMATA_UNIT, 'derive_session_event', setup, engine=E, tracked=(opc, cnt_t), name='derive_session_event')
+    # the verdict is only meaningful when every byte it was computed from is a byte of the frame, the table or the own
+    # address: a read outside any other object (a partial copy of the frame on the stack walked as if it were the frame) is
+    # not (reads past the received length inside the MTU-sized frame buffer are C01's known finding, not this rule's)
+    for ob in I.obs.values():
+        if not ob.ok and ob.kind in ('bounds', 'uninit-read', 'dangling', 'wild-deref', 'null-deref') and ' of object frame ' not in ob.msg:
+            rep.fail('R11.b', 'scan|ub|%s|%s' % (ob.fn, ob.kind), 'the classification is computed from memory that is not the frame: ' + ob.msg, node=ob.node, function=ob.fn)
     # (b) the scan loop
     # (the scan may live in derive_session_event or in a helper it was extracted into; the lookup is summarised, so
     #  every loop interpreted here belongs to the classifier)
